@@ -59,13 +59,13 @@ CHECKS = {
   technique="deterministic simulation: seeded storage histories (write, read back) under short-write / chunked-read schedules at library and process level"),
 "C19": dict(
   category="exploration",
-  text="Every shape of the stated grid (1..5 axes x lengths 1..5, 3,905 shapes) x every axis incl. dims and dims+1 x every position incl. len and len+1 is visited; on each, seeded call histories (next/nth/len/size_hint/clone, and fold/count/last on a clone or by value, continued 1..2*len+4 calls past the first None) are run against iter_indices, iter_axis, view iterators and iter_frequencies and compared call by call with a nested-loop row-major reference model; sum(axis) is compared with adding the views. The grid is exhaustive, the histories are sampled.",
+  text="Every shape of the stated grid (1..5 axes x lengths 1..5, 3,905 shapes) x every axis incl. dims and dims+1 x every position incl. len and len+1 is visited; on each, seeded call histories (next/nth/len/size_hint/clone, and fold/count/last on a clone or by value, continued 1..2*len+4 calls past the first None) are run against iter_indices, iter_axis, view iterators and iter_frequencies and compared call by call with a nested-loop row-major reference model; sum(axis) is compared with adding the views; arrays obtained from Array::read_npy (C-order and Fortran-order headers) must be self-consistent when accepted. The grid is exhaustive, the histories are sampled.",
   design_ref="DESIGN.md section 6 / C19",
   note="Weakest fit for the technique: there is no fault or schedule dimension; the simulator contributes call histories, reference model, minimisation and replay. Harness built with overflow checks on.",
   technique="deterministic simulation: seeded operation histories on stateful iterators checked against an executable sequential reference model"),
 "C18": dict(
   category="fault_enumeration",
-  text="Seeded simulation of the real readers/writers over simulated transports: for each generated workload the first-chunk length and the byte offset of an injected read/write error are swept exhaustively within the stated bounds (inputs <= 600 B quick / 2 KiB thorough, strided above), later chunks, buffer capacities, thread counts, BGZF layouts and EINTR/short-write/Ok(0) faults are sampled; the same scenarios run against the unmodified binary under a system-call shim. A clean run is evidence over the explored schedules and fault points, not a proof.",
+  text="Seeded simulation of the real readers/writers over simulated transports: for each generated workload the first-chunk length and the byte offset of an injected read/write error are swept exhaustively within the stated bounds (inputs <= 600 B quick / 2 KiB thorough, strided above), later chunks, buffer capacities, thread counts, BGZF layouts and EINTR/short-write/Ok(0) faults are sampled; every failed write is followed by a fault-free write of another spectrum on the same thread, which must equal that write on its own; the same scenarios run against the unmodified binary under a system-call shim. A clean run is evidence over the explored schedules and fault points, not a proof.",
   design_ref="DESIGN.md section 6 / C18",
   note="Trusted: noodles-bcf writer (BCF encoding of generated call sets), the harness BGZF framer (self-consistent with noodles' reader), glibc dynamic linking for the shim. L1 glue replicates Create::run; L2 runs the real binary. UnexpectedEof is never injected as an error kind; after EINTR both retry and error are accepted.",
   technique="deterministic simulation with fault injection: seeded chunk schedules + exhaustive first-chunk and fault-offset sweeps over SimRead/SimWrite (in-process) and an LD_PRELOAD syscall shim (process level)"),
